@@ -2,16 +2,21 @@ import JoblibModel.FuncCode
 import JoblibModel.IOUtil
 /-! Driver for C12: a stateful interpreter of histories over `JoblibModel.FuncCode.step`.
 
-  reset <f10:0|1> <f38:0|1>  which tree is modelled: 1 = with the F10 / F38 repair           → ok
-  def <obj> <src> <0|1>      a `def` (1) or `lambda` (0): function <obj>, code object (<obj>, <src>),
-                             wrapper <obj>                                                      → ok
-  wrap <w> <obj>             another MemorizedFunc on function <obj>                          → ok | notlive
+  reset <f10:0|1> <f38:0|1> <wkl:0|1> <f46:0|1>
+                             which tree is modelled: f10 / f38 / f46: 1 = with that repair; wkl: 1 = the writer
+                             key contains the location (the code as it is), 0 = `writer_key = func_id`  → ok
+  def <obj> <src> <0|1> <loc>
+                             a `def` (1) or `lambda` (0): function <obj>, code object (<obj>, <src>),
+                             wrapper <obj> of a Memory on directory <loc> (canonical spelling)          → ok
+  wrap <w> <obj> <key> <dir> another MemorizedFunc on function <obj>, of a Memory whose location string is
+                             <key>, denoting directory <dir> (<key> = <dir>: the canonical spelling)  → ok | notlive
   swap <obj> <id> <src>      <obj>.__code__ = the code object (<id>, <src>)                   → ok | notlive
   call <w> <a>               → val <x|h> <src> <a>  (the value is (source, argument)) | notlive
   check <w> <a>              → flag <0|1> | notlive
   clearfn <w>                → ok | notlive
-  damage <delete|unreadable|other>                                                             → ok
-  clearall | fresh           → ok
+  damage <dir> <delete|unreadable|other>                                                       → ok
+  clearall <dir>             Memory.clear() of a Memory on directory <dir>                     → ok
+  fresh                      → ok
 
 Anything else, and any request before the first `reset`, is answered `bad-op`. -/
 open JoblibModel JoblibModel.FuncCode JoblibModel.IOUtil
@@ -36,25 +41,25 @@ def pBit : String → Option Bool
   | _ => none
 
 def pOp : List String → Option Op
-  | ["def", o, k, n] => do pure (.define (← o.toNat?) (← k.toNat?) (← pBit n))
-  | ["wrap", w, o] => do pure (.wrap (← w.toNat?) (← o.toNat?))
+  | ["def", o, k, n, l] => do pure (.define (← o.toNat?) (← k.toNat?) (← pBit n) (← l.toNat?))
+  | ["wrap", w, o, k, d] => do pure (.wrap (← w.toNat?) (← o.toNat?) (← k.toNat?) (← d.toNat?))
   | ["swap", o, i, k] => do pure (.swap (← o.toNat?) (← i.toNat?, ← k.toNat?))
   | ["call", o, a] => do pure (.call (← o.toNat?) (← a.toNat?))
   | ["check", o, a] => do pure (.check (← o.toNat?) (← a.toNat?))
   | ["clearfn", o] => do pure (.clearFn (← o.toNat?))
-  | ["damage", "delete"] => some (.damage .delete)
-  | ["damage", "unreadable"] => some (.damage .unreadable)
-  | ["damage", "other"] => some (.damage .other)
-  | ["clearall"] => some .clearAll
+  | ["damage", d, "delete"] => do pure (.damage (← d.toNat?) .delete)
+  | ["damage", d, "unreadable"] => do pure (.damage (← d.toNat?) .unreadable)
+  | ["damage", d, "other"] => do pure (.damage (← d.toNat?) .other)
+  | ["clearall", d] => do pure (.clearAll (← d.toNat?))
   | ["fresh"] => some .fresh
   | _ => none
 
 def handle (s : DS) (line : String) : DS × String :=
   match tokens line with
-  | ["reset", a, b] =>
-    match pBit a, pBit b with
-    | some a, some b => ({ cfg := some ⟨a, b⟩ }, "ok")
-    | _, _ => (s, "bad-op")
+  | ["reset", a, b, c, d] =>
+    match pBit a, pBit b, pBit c, pBit d with
+    | some a, some b, some c, some d => ({ cfg := some ⟨a, b, c, d⟩ }, "ok")
+    | _, _, _, _ => (s, "bad-op")
   | ts =>
     match s.cfg, pOp ts with
     | some cfg, some op =>
